@@ -83,6 +83,7 @@ Inductive event :=
 | EvAdjust (consulted : list nat)             (* AdjustPriorities run by Dequeue / SetPriority *)
 | EvStart (id : nat)
 | EvDone (id : nat) (r : option nat)
+| EvSent (id : nat) (e : nat) (to : list nat)  (* the monitor received error e of item id; it will fan it out to [to] *)
 | EvErr (sub : nat) (e : option nat)          (* subscriber received e (None = the nil read from a closed errChan) *)
 | EvSub (sub : nat)
 | EvDeq (id : nat) (nil_returned : bool)
@@ -494,8 +495,9 @@ Definition step (v : variant) (s : state) (l : label) : option state :=
       | Some (x, e, rest) =>
           if err_closed s then do_panic PSendErr s
           else match mon s with
-               | MIdle => Some (set_mon (match subs s with [] => MIdle | l => MFan (Some e) l end)
-                                (set_deleting (deleting s ++ [x]) (set_senderr rest s)))
+               | MIdle => Some (ev (EvSent id e (subs s))
+                                (set_mon (match subs s with [] => MIdle | l => MFan (Some e) l end)
+                                (set_deleting (deleting s ++ [x]) (set_senderr rest s))))
                | _ => None
                end
       | None => None
